@@ -147,6 +147,12 @@ func main() {
 		os.Exit(2)
 	}
 	stream, tier := os.Args[1], os.Args[2]
+	// "score:F:30,31" = stream score restricted to operation kinds F and versions 30, 31
+	var filter []string
+	if i := strings.Index(stream, ":"); i >= 0 {
+		filter = strings.Split(stream[i+1:], ":")
+		stream = stream[:i]
+	}
 	seed, _ := strconv.ParseInt(os.Args[3], 10, 64)
 	rng = rand.New(rand.NewSource(seed))
 	out = bufio.NewWriterSize(os.Stdout, 1<<20)
@@ -160,7 +166,7 @@ func main() {
 	case "obj":
 		streamObj(thorough)
 	case "score":
-		streamScore(thorough, os.Args[4:])
+		streamScore(thorough, filter)
 	case "rating":
 		streamRating(thorough)
 	case "float":
